@@ -34,6 +34,9 @@ type Unit struct {
 	Replay func(o *Outcome) string
 	// Timeout override in seconds (0 = default)
 	Timeout int
+	// OnlyObl, when set, selects the obligations of this unit that belong to
+	// the property being checked (the unit is shared with another property).
+	OnlyObl func(name string) bool
 }
 
 // Outcome of one named obligation.
@@ -155,6 +158,9 @@ func Check(m *sx.Machine, units []*Unit, cfg Config) *Report {
 		for _, r := range results {
 			for _, o := range r.Obls {
 				n := o.Name
+				if u.OnlyObl != nil && !u.OnlyObl(n) {
+					continue
+				}
 				if u.Instance != "" {
 					n += " @" + u.Instance
 				}
